@@ -171,6 +171,14 @@ def _rule_R18(text, args):
     return text, n
 
 
+def _rule_R19(text, args):
+    # X.resize_with(N, Default::default);  ->  vstub_resize_with_default(X, N);
+    # (Vec::resize_with is generic over the closure type; the one form used - filling with the default value - is bound to
+    #  a trusted stub: the vector is truncated or padded with default values to length N)
+    rx = re.compile(r"(?P<x>" + IDENT + r")\.resize_with\(\s*(?P<n>[^,;]+?)\s*,\s*Default::default\s*\)\s*;")
+    return rx.subn(lambda m: "vstub_resize_with_default(%s, %s);" % (m.group("x"), m.group("n")), text)
+
+
 def _rule_R6(text, args):
     # path normalisation for the one-file unit: args are from=to pairs (e.g. super::OptionalSpace=OptionalSpace)
     n = 0
@@ -200,7 +208,7 @@ def _rule_R16(text, args):
     return rx.subn(lambda m: 'write!(%s, "{}%s", %s)' % (m.group(1), m.group(3), m.group(2)), text)
 
 
-RULES = {"R18": _rule_R18, "R17": _rule_R17, "R16": _rule_R16, "R15": _rule_R15, "R6": _rule_R6, "R14": _rule_R14, "R13": _rule_R13, "R1": _rule_R1, "R4": _rule_R4, "R4rev": _rule_R4rev, "R11": _rule_R11, "R8": _rule_R8, "R7": _rule_R7,
+RULES = {"R19": _rule_R19, "R18": _rule_R18, "R17": _rule_R17, "R16": _rule_R16, "R15": _rule_R15, "R6": _rule_R6, "R14": _rule_R14, "R13": _rule_R13, "R1": _rule_R1, "R4": _rule_R4, "R4rev": _rule_R4rev, "R11": _rule_R11, "R8": _rule_R8, "R7": _rule_R7,
          "R9": _rule_R9, "R12": _rule_R12}
 
 
